@@ -148,6 +148,22 @@ func (g *ExprGen) Gen(t Type, depth int) Expr {
 			g.inInterp++
 			a, b := g.Scalar(d), g.Scalar(d)
 			g.inInterp--
+			// a string literal inside #{ } is an expression like any other, also the empty one, also when the
+			// string consists of nothing else
+			if x, ok := a.(*EStr); ok && r.Intn(2) == 0 {
+				a = &EStrExpr{x.S}
+			}
+			if x, ok := b.(*EStr); ok && r.Intn(2) == 0 {
+				b = &EStrExpr{x.S}
+			}
+			switch r.Intn(8) {
+			case 0:
+				return &EInterp{[]Expr{&EStrExpr{""}}}
+			case 1:
+				return &EInterp{[]Expr{&EStrExpr{""}, &EStrExpr{""}}}
+			case 2:
+				return &EInterp{[]Expr{a}}
+			}
 			return &EInterp{[]Expr{&EStr{g.pick([]string{"p ", "", "x"})}, a, &EStr{g.pick([]string{" q", "", "-"})}, b}}
 		case 5:
 			return &ETern{g.Gen(TBool, d), g.Gen(TStr, d), g.Gen(TStr, d)}
